@@ -27,7 +27,7 @@ NONTRIVIAL = {
     "C04": ["C04:invalid_input_processed"],
 }
 
-PUPPET_DIRECTED = ["d01", "d02", "d03", "d04", "d07", "d09", "d10", "d15", "d17", "d18", "d19"]
+PUPPET_DIRECTED = ["d01", "d02", "d03", "d04", "d07", "d09", "d10", "d13", "d15", "d17", "d18", "d19", "d20"]
 
 
 def puppet_mix(rand_count, directed_each, **params):
@@ -72,8 +72,8 @@ PLANS = {
         "level": "exploration",
         "rule": "puppet scripts with payloads that are present / partially missing / arriving later / never arriving (d18, rand) plus cluster runs; oracle: at every vote for a foreign block and every commit, each payload digest has an earlier store-write event on that node's store; non-trivial = a vote or commit with non-empty payload",
         "assumptions": ["store-write hook fires inside the store task right after db.put"],
-        "quick": [J("puppet", "d18", 160, per_process=8), J("puppet", "rand", 480, per_process=10), J("puppet", "d10", 48, per_process=8)],
-        "thorough": [J("puppet", "d18", 6000, per_process=20), J("puppet", "rand", 30000, per_process=20), J("puppet", "d10", 2000, per_process=20)],
+        "quick": [J("puppet", "d18", 160, per_process=8), J("puppet", "rand", 480, per_process=10), J("puppet", "d10", 48, per_process=8), J("puppet", "d20", 64, per_process=8), J("puppet", "d13", 32, per_process=8)] + byz_mix(8),
+        "thorough": [J("puppet", "d18", 6000, per_process=20), J("puppet", "rand", 30000, per_process=20), J("puppet", "d10", 2000, per_process=20), J("puppet", "d20", 3000, per_process=20), J("puppet", "d13", 1000, per_process=20)] + byz_mix(400),
     },
     "C10": {
         "level": "exploration",
@@ -130,8 +130,8 @@ PLANS.update({
         "level": "exploration",
         "rule": "(1) leader function of committees of 1..20 authorities built in permuted / duplicated insertion orders vs. the sorted-key round robin for rounds 0..3n, random u64 and the top of the u64 range, and once-per-window rotation; (2) always-on at every real node in puppet and cluster runs: each vote is for a block authored and validly signed by the round's leader, and no honest authority signs two proposals for one round (wire + signature-service tap), including directed races of QC/TC/timeouts at a collecting leader (d15); component case class = committee size, scenario runs are distinct by Core-event fingerprint",
         "assumptions": ["usize is 64 bits (round as usize does not truncate)"],
-        "quick": [J("c09", "x", 16, per_process=1)] + [J("puppet", "d15", 192, per_process=8), J("puppet", "rand", 320, per_process=10), J("puppet", "d09", 48, per_process=8)] + cluster_mix(24) + byz_mix(12),
-        "thorough": [J("c09", "x", 128, per_process=2, committees=300)] + [J("puppet", "d15", 8000, per_process=20), J("puppet", "rand", 20000, per_process=20), J("puppet", "d09", 2000, per_process=20)] + cluster_mix(1000),
+        "quick": [J("c09", "x", 16, per_process=1)] + [J("puppet", "d15", 192, per_process=8), J("puppet", "rand", 320, per_process=10), J("puppet", "d09", 48, per_process=8), J("puppet", "d13", 48, per_process=8)] + cluster_mix(24) + byz_mix(12),
+        "thorough": [J("c09", "x", 128, per_process=2, committees=300)] + [J("puppet", "d15", 8000, per_process=20), J("puppet", "rand", 20000, per_process=20), J("puppet", "d09", 2000, per_process=20), J("puppet", "d13", 2000, per_process=20)] + cluster_mix(1000) + byz_mix(500),
     },
     "C19": {
         "level": "exploration",
